@@ -111,11 +111,18 @@ def execute_scenarios(ctx, sym, mod, code='x = 1'):
     from ..fdeval import Obj, Raised
     fn = mod.func('Sandbox._execute')
     ctx.analysed_function(mod, fn)
-    kinds = ['ValueError', 'SyntaxError', 'RecursionError', 'SystemExit', 'KeyboardInterrupt', 'GeneratorExit']
+    # (kind, label, what an exception object of that kind carries)
+    kinds = [('ValueError', 'ValueError', dict(args=('bad',))), ('SyntaxError', 'SyntaxError', dict(args=('bad',))),
+             ('RecursionError', 'RecursionError', dict(args=())), ('SystemExit', 'SystemExit', dict(args=(), code=None)),
+             ('SystemExit', 'SystemExit(0)', dict(args=(0,), code=0)),
+             ('SystemExit', "SystemExit('done')", dict(args=('done',), code='done')),
+             ('KeyboardInterrupt', 'KeyboardInterrupt', dict(args=())), ('GeneratorExit', 'GeneratorExit', dict(args=()))]
     for where in ('none', 'compile', 'tracer-enter', 'exec', 'tracer-exit'):
-        for kind in (kinds if where != 'none' else [None]):
+        for kind, label, carried in (kinds if where != 'none' else [(None, None, {})]):
+            if label != kind and where != 'exec':
+                continue        # the exit-status variants matter where student code runs
             rec = symexec.Recorder()
-            exc = Obj('student-exception', exc_kind=kind)
+            exc = Obj('student-exception', exc_kind=kind, **carried)
             exc_info = symexec.marker('sys.exc_info()')
 
             def boom(name, ret=None):
@@ -142,7 +149,7 @@ def execute_scenarios(ctx, sym, mod, code='x = 1'):
                 'sys.exc_info': lambda: exc_info})
             value, raised = symexec.run(fd, fn, [code, 'answer.py', 'run', False], bound_self=me,
                                         what='Sandbox._execute')
-            yield where, kind, dict(rec=rec, value=value, raised=raised, me=me, exc=exc, exc_info=exc_info)
+            yield where, kind, dict(rec=rec, value=value, raised=raised, me=me, exc=exc, exc_info=exc_info, label=label)
 
 
 def acquire_functions(mod, cls='Sandbox', acquire='_start_mocking'):
@@ -164,7 +171,7 @@ def r1_release_on_all_exits(ctx, mod, sym=None):
         n_sc += 1
         rec = ob['rec']
         starts, stops = len(rec.named('_start_mocking')), len(rec.named('_stop_mocking'))
-        ctx.check(starts == 1 and stops == 1, 'R1', '_execute[%s raises %s]:released-once' % (where, kind), mod,
+        ctx.check(starts == 1 and stops == 1, 'R1', '_execute[%s raises %s]:released-once' % (where, ob['label']), mod,
                   mod.func('Sandbox._execute'),
                   "with %s raised at %s, _start_mocking ran %d time(s) and _stop_mocking %d time(s)" % (
                       kind, where, starts, stops),
